@@ -23,6 +23,12 @@
 #define vf_introspect VF_X(_vf_introspect)
 #define vf_is_mp11 VF_X(_vf_is_mp11)
 #define vf_probe VF_X(_vf_probe)
+#define vf_reuse_moved_from VF_X(_vf_reuse_moved_from)
+#define vf_qsize2 VF_X(_vf_qsize2)
+#define vf_execq2 VF_X(_vf_execq2)
+#define vf_id2 VF_X(_vf_id2)
+#define vf_ev2 VF_X(_vf_ev2)
+#define vf_copy VF_X(_vf_copy)
 #define vf_qsize VF_X(_vf_qsize)
 #define vf_exec1 VF_X(_vf_exec1)
 #define vf_execq VF_X(_vf_execq)
